@@ -11,8 +11,31 @@ import WuffsVerif.Proof.RenderShape
   rok <hex>                            -> 1 | 0 tokens | 0 comments | 0 sorted | 0 lines | reject
         (ghost: the hypothesis `streamOK` of Props.C12.render_retokenizes_partial on Tokenize's result;
          the harness sends it for every source the real wuffsfmt accepts and expects 1)
+  mvl <group index> <hex source>       -> <measureVarNameLength> <findColon | -1> | empty | none
+        (per-function tie, round 2: Tokenize the source, take the index-th line of tokens with its
+         trailing semicolons stripped and the tokens after it, as Render's loop does)
+  cmt <line> <indent> <0|1> <hex of the comments joined by \n> <number of comments>  -> ok <hex>   (appendComment)
+  tabs <n>                             -> <length> <1 if all spaces>                                (appendTabs)
+  tflags <hex text>                    -> 13 bits: isClose isTightLeft isTightRight unary&binary isIdent isLiteral
+        isDQStr isSQStr isCloseIdentLiteral isCloseIdentStrLiteralQuestion implicitSemicolon =="(" =="="
 -/
 open WuffsVerif WuffsVerif.Line
+
+/-- the lines of tokens as `Render`'s loop takes them: (line, tokens after it) -/
+def c12Groups : Nat → List FmtToken.Tok → List (List FmtToken.Tok × List FmtToken.Tok)
+  | 0, _ => []
+  | _, [] => []
+  | f + 1, t0 :: rest =>
+    let g := t0 :: rest.takeWhile (·.line == t0.line)
+    let src := rest.dropWhile (·.line == t0.line)
+    (g, src) :: c12Groups f src
+
+def c12SplitLines (bs : List UInt8) : List (List UInt8) :=
+  let r := bs.foldl (fun (acc : List (List UInt8) × List UInt8) b =>
+    if b == 10 then (acc.2.reverse :: acc.1, []) else (acc.1, b :: acc.2)) ([], [])
+  (r.2.reverse :: r.1).reverse
+
+def c12Bit (b : Bool) : String := if b then "1" else "0"
 
 def c12Step (l : List String) : String :=
   match l with
@@ -47,6 +70,37 @@ def c12Step (l : List String) : String :=
         else if !Render.linesOK (toks.length + 1) toks then "0 lines"
         else "1"
       | none => "reject"
+    | none => "bad-op"
+  | ["mvl", gi, hx] =>
+    match gi.toNat?, fromHex hx with
+    | some gi, some s =>
+      match FmtToken.tokenize s with
+      | some (toks, _) =>
+        match (c12Groups (toks.length + 1) toks)[gi]? with
+        | some (g, remaining) =>
+          let lineTokens := (Render.stripSemicolons g).1
+          if lineTokens.isEmpty then "empty" else
+          s!"{Render.measureVarNameLength lineTokens remaining} {match Render.findColon lineTokens with | some i => toString i | none => "-1"}"
+        | none => "none"
+      | none => "none"
+    | _, _ => "bad-op"
+  | ["cmt", line, indent, oe, hx, n] =>
+    match line.toNat?, indent.toInt?, fromHex hx, n.toNat? with
+    | some line, some indent, some bs, some n =>
+      let comments : Array (List UInt8) := if n == 0 then #[] else (c12SplitLines bs).toArray
+      "ok " ++ toHex (Render.commentText comments line indent (oe == "1"))
+    | _, _, _, _ => "bad-op"
+  | ["tabs", n] =>
+    match n.toInt? with
+    | some n => let s := Render.tabs n; s!"{s.length} {c12Bit (s.all (· == 32))}"
+    | none => "bad-op"
+  | ["tflags", hx] =>
+    match fromHex hx with
+    | some text =>
+      let t : FmtToken.Tok := ⟨(FmtToken.intern text).1, text, 0⟩
+      String.join ([t.isClose, t.isTightLeft, t.isTightRight, t.isUnaryAndBinary, t.isIdent, t.isLiteral,
+        t.isDQStr, t.isSQStr, Render.isCloseIdentLiteral t, Render.isCloseIdentStrLiteralQuestion t,
+        t.implicitSemicolon, t.id == Gen.C12.idOpenParen, t.id == Gen.C12.idEq].map c12Bit)
     | none => "bad-op"
   | ["num", hx] =>
     match fromHex hx with
